@@ -55,7 +55,9 @@ func VP_C19_MutatedObjects() {
 	}
 	// the decoders themselves on the damaged payload (an attacker may also fix the id up)
 	if len(damaged) > 8 {
-		_, _ = NewTree(g, &Object{Type: TreeObject, Data: damaged[8:]})
+		if tr, err := NewTree(g, &Object{Type: TreeObject, Data: damaged[8:]}); err == nil {
+			zzvp.Assert(vpTreeFaithful(damaged[8:], tr.Children), "a damaged tree payload that is still accepted is decoded faithfully (no invented or padded id)")
+		}
 		_, _ = NewCommit(&Object{Type: CommitObject, Data: damaged[8:], Hash: sha.SHA1(vpFixedID)})
 	}
 	zzvp.Done()
